@@ -329,8 +329,17 @@ impl Harness {
             if self.passthrough {
                 // the image database is invisible to the gate: wait for the waker only
                 let start = std::time::Instant::now();
+                let mut spins = 0u32;
                 while !flag.is_set() {
-                    std::thread::sleep(Duration::from_micros(20));
+                    if spins < 2000 {
+                        std::thread::yield_now();
+                    } else {
+                        std::thread::sleep(Duration::from_micros(20));
+                    }
+                    spins += 1;
+                    if allow_ticks && self.cfg.timer_enabled() && self.db.is_some() && spins % 2500 == 0 {
+                        self.tick();
+                    }
                     if start.elapsed() > Duration::from_secs(20) {
                         return None;
                     }
@@ -700,6 +709,8 @@ impl Harness {
         let saved_db = self.db.take();
         let saved_dir = std::mem::replace(&mut self.dir, img.to_path_buf());
         let saved_tick = self.next_tick;
+        let saved_clock = (self.gate.mono.load(std::sync::atomic::Ordering::SeqCst), self.gate.wall.load(std::sync::atomic::Ordering::SeqCst));
+        let saved_ticks = self.ticks;
         let res = match crate::util::catch(|| self.cfg.builder().open(img)) {
             Ok(Ok(db)) => {
                 self.db = Some(db);
@@ -715,6 +726,9 @@ impl Harness {
         self.db = saved_db;
         self.dir = saved_dir;
         self.next_tick = saved_tick;
+        self.ticks = saved_ticks;
+        self.gate.mono.store(saved_clock.0, std::sync::atomic::Ordering::SeqCst);
+        self.gate.wall.store(saved_clock.1, std::sync::atomic::Ordering::SeqCst);
         self.passthrough = false;
         self.gate.end_passthrough();
         res
